@@ -55,7 +55,7 @@ func (t *Tracer) open() {
 	t.inChunk = 0
 }
 
-var hexField = regexp.MustCompile(`"h":"#?[0-9a-f]*"`)
+var hexField = regexp.MustCompile(`"h":"#?[0-9a-f]*"|"(b|i|g|batch|hex|payloadH)":("[0-9a-f#]*"|[0-9]+),?`)
 
 // Emit writes an event. newBehaviour marks the first event of a behaviour (a chunk may
 // only start there). nontrivial says whether the case counts for distinct_nontrivial;
